@@ -261,7 +261,7 @@ func c03Gen(rt *rapid.T) c03Case {
 		}
 	}
 	c.a = genTensor(c.dt, sa, true).Draw(rt, "A")
-	if eqInts(sa, sb) && c.compat && rapid.IntRange(0, 5).Draw(rt, "sameObject") == 0 {
+	if eqInts(sa, sb) && c.compat && rapid.IntRange(0, 5).Draw(rt, "sameObject") == 0 && !(c.op == "Div" && isInt(c.dt)) {
 		c.b, c.same = c.a, true
 		return c
 	}
